@@ -70,7 +70,7 @@ From V Require Import Base.Result Model.Registry Model.Settings Model.RngWords M
 (* [Require] without [Import]: the names of the pinned statements above keep their meaning; the
    statements added at the end of this file use qualified names *)
 From V Require Model.Emit Checkers.Parse Model.Unparse Corr.RunTG Corr.RunC14
-  Proofs.ConformsTokens Proofs.ConformsTokensExamples.
+  Proofs.ConformsTokens Proofs.ConformsTokensExamples Proofs.ConformsCase.
 Import ListNotations.
 
 Theorem C14_total_partial :
@@ -421,3 +421,31 @@ Theorem C14_F15_refused_by_reader :
     RunC14.conformsb r (s_root s) (Parse.parse_module toks) (ConformsTokens.model_paths r s) id ts = false.
 Proof. exact ConformsTokensExamples.f15_refused_by_reader. Qed.
 Print Assumptions C14_F15_refused_by_reader.
+
+(** ** [prop_conforms] on a case is a consequence of the correspondence booleans.
+    [RunC14.prop_conforms c] is the property checker of the harness: the token-level reader on the parse
+    of the OBSERVED module ([c_gen]), the OBSERVED paths ([c_paths]) and every OBSERVED Ok example.
+    If the observed module, paths and examples are the model's ([corr_module], [corr_model_paths]
+    -- Proofs/ConformsCase.v, the C14 analogues of [RunTG.corr_gen] / [RunTG.corr_paths] --, and
+    [RunC14.corr_example]) and the case is in the scope of [C14_conforms_tokens]
+    ([hyp_reader_scope c]: the model generates; [skeleton_consistentb], [reader_scopeb],
+    [literal_paths_plainb], [items_plain] hold), then [prop_conforms c = true]: a violation of
+    [prop_conforms] on such a case can only come with a failing [corr_*] tag (model and
+    implementation differ) -- the reader is no longer separately trusted there. *)
+Theorem C14_prop_conforms_of_corr :
+  forall c : RunC14.case,
+    ConformsCase.hyp_reader_scope c = true ->
+    ConformsCase.corr_module c = true -> ConformsCase.corr_model_paths c = true ->
+    RunC14.corr_example c = true ->
+    RunC14.prop_conforms c = true.
+Proof. exact ConformsCase.prop_conforms_of_corr. Qed.
+Print Assumptions C14_prop_conforms_of_corr.
+
+(** the hypotheses hold on a case (all 14 ids of the registry of Proofs/ConformsExamples.v) *)
+Theorem C14_prop_conforms_of_corr_nonvacuous :
+  exists c : RunC14.case,
+    ConformsCase.hyp_reader_scope c = true /\ ConformsCase.corr_module c = true /\
+    ConformsCase.corr_model_paths c = true /\ RunC14.corr_example c = true /\
+    RunC14.hyp_ok c = true /\ RunC14.hyp_marker c = true /\ RunC14.prop_conforms c = true.
+Proof. exists ConformsCase.demo_case. exact (proj2 ConformsCase.demo_case_in_scope). Qed.
+Print Assumptions C14_prop_conforms_of_corr_nonvacuous.
